@@ -23,6 +23,7 @@ Section Closure.
   Hypothesis P_pop_cleanup : P pop_cleanup.
   Hypothesis P_end_cleanup : P end_cleanup.
   Hypothesis P_note_skip : forall m, P (note_skip m).
+  Hypothesis P_note_ood : forall m, P (note_ood m).
   Hypothesis P_failOnError : forall l, P (failOnError l).
   Hypothesis P_note_draw : forall v, P (note_draw v).
   Hypothesis P_drawBits : forall n, P (drawBits n).
@@ -35,7 +36,7 @@ Section Closure.
     repeat first
       [ apply P_ret | apply P_throw | apply P_emit_g | apply P_emit_u; reflexivity | apply P_get_ts | apply P_mark_dirty
       | apply P_signal | apply P_register | apply P_context_call | apply P_begin_cleanup | apply P_pop_cleanup
-      | apply P_end_cleanup | apply P_note_skip | apply P_failOnError | apply P_note_draw | apply P_drawBits
+      | apply P_end_cleanup | apply P_note_skip | apply P_note_ood | apply P_failOnError | apply P_note_draw | apply P_drawBits
       | apply P_group_d | apply P_bind; [|intros]
       | assumption
       | match goal with H : forall a, P (_ a) |- _ => apply H end ].
@@ -109,7 +110,8 @@ Section Closure.
       apply P_try; [apply P_crun|]. intros [v|e]; [apply IH|].
       destruct e; try apply IH.
       - destruct (inner && internal_msg m).
-        + apply P_bind; [apply P_mark_dirty|intros _; apply IH].
+        + apply P_bind; [apply P_mark_dirty|intros _].
+          apply P_bind; [apply P_note_ood|intros; apply IH].
         + apply P_bind; [destruct (internal_msg m); pa|intros _].
           apply P_bind; [apply P_note_skip|intros; apply IH].
       - apply P_throw.
@@ -138,16 +140,20 @@ Section Closure.
                    c <- cleanup LF crun true ;;
                    t0 <- get_ts ;;
                    match c, r with
-                   | Some (XInvalid m), _ => match failed t0 with Some _ => throw (XInvalid m) | None => ret None end
+                   | None, Ok v =>
+                       match ood t0 with
+                       | Some m => match failed t0 with Some _ => throw (XInvalid m) | None => ret None end
+                       | None => ret (Some v)
+                       end
                    | Some e, Err (XInvalid m) => _ <- (if internal_msg m then mark_dirty else ret tt) ;; throw e
                    | Some e, _ => throw e
-                   | None, Ok v => ret (Some v)
                    | None, Err (XInvalid m) => match failed t0 with Some _ => throw (XInvalid m) | None => ret None end
                    | None, Err e => throw e
                    end)).
       { apply P_bind; [apply P_cleanup|intros c].
         apply P_bind; [apply P_get_ts|intros t0].
-        destruct c as [[]|]; destruct r as [v|[]]; pa; try (destruct (failed t0); pa); try (destruct (internal_msg _); pa). }
+        destruct c as [[]|]; destruct r as [v|[]]; pa; try (destruct (ood t0); pa); try (destruct (failed t0); pa);
+          try (destruct (internal_msg _); pa). }
       destruct r as [v|[]]; try exact H. apply P_throw.
     Qed.
 
